@@ -102,8 +102,10 @@ def real_streams(bl, inputs):
     token() turns the parser's end token into EOF."""
     T = bl.tokenizer.tokenizer
     S = bl.subst
-    orig_token, orig_read, orig_init = T.token, T._readtoken, T.__init__
-    orig_dol, orig_rec = S._parsedolparen, S._recursiveparse
+    orig_token, orig_read, orig_init = T.token, getattr(T, '_readtoken', None), T.__init__
+    # (internals: if a rewrite renamed them, nested streams are simply not recorded)
+    orig_dol, orig_rec = getattr(S, '_parsedolparen', None), getattr(S, '_recursiveparse', None)
+    nested_ok = callable(orig_dol) and callable(orig_rec) and hasattr(T, '_readtoken')
     rec = {}; order = []; raw = {}; modes = {}; st = {'pending': None, 'next': None}
     def token(self):
         t = orig_token(self)
@@ -126,7 +128,9 @@ def real_streams(bl, inputs):
     def recp(*a, **k):
         st['next'] = st['pending'] or 'top'; st['pending'] = None
         return orig_rec(*a, **k)
-    T.token = token; T._readtoken = readtoken; T.__init__ = init; S._parsedolparen = dol; S._recursiveparse = recp
+    T.token = token
+    if nested_ok:
+        T._readtoken = readtoken; T.__init__ = init; S._parsedolparen = dol; S._recursiveparse = recp
     out = []
     try:
         for s in inputs:
@@ -140,7 +144,9 @@ def real_streams(bl, inputs):
             nested = [(modes.get(k), list(v)) for k, v in raw.items() if modes.get(k) in ('sub', 'top')]
             out.append((s, verdict, list(rec[order[0]]) if order else [], nested))
     finally:
-        T.token = orig_token; T._readtoken = orig_read; T.__init__ = orig_init; S._parsedolparen = orig_dol; S._recursiveparse = orig_rec
+        T.token = orig_token
+        if nested_ok:
+            T._readtoken = orig_read; T.__init__ = orig_init; S._parsedolparen = orig_dol; S._recursiveparse = orig_rec
     return out
 
 def norm_model(line):
